@@ -515,11 +515,9 @@ class TextXVisitor(RRELVisitor):
                     def _add_reffered_classes(rule, inh_by, start=False):
                         if rule.root and not start:
                             _determine_rule_type(rule._tx_class)
-                            if (
-                                rule._tx_class._tx_type != RULE_MATCH
-                                and rule._tx_class not in inh_by
-                            ):
-                                inh_by.append(rule._tx_class)
+                            if rule._tx_class._tx_type != RULE_MATCH:
+                                if rule._tx_class not in inh_by:
+                                    inh_by.append(rule._tx_class)
                                 # stop after first added/found type
                                 return True
                         else:
